@@ -38,12 +38,7 @@ impl WordShape {
     }
 }
 //@include ../common/gates_min.rs
-// a match as the matchers produce it: inside its word, with a small non-negative rounded-up typo count
-pub open spec fn match_ok(m: WordMatch) -> bool {
-    m.slice.0 <= m.slice.1 <= 0x4000_0000 && m.subslice.0 <= m.subslice.1 && m.subslice.1 - m.subslice.0 <= m.slice.1 - m.slice.0
-    && 0 <= ceil_of(m.typos) <= 0x4000_0000 && m.offset <= 0x4000_0000
-}
-pub open spec fn matches_ok(ms: Seq<WordMatch>) -> bool { ms.len() <= 0x10_0000 && forall|k: int| 0 <= k < ms.len() ==> match_ok(#[trigger] ms[k]) }
+//@include ../common/tm_contract.rs
 // provenance clause (C01): the matched prefix is at least twice the rounded-up typo count
 pub open spec fn prov(m: WordMatch) -> bool { 2 * ceil_of(m.typos) <= m.subslice.1 - m.subslice.0 }
 pub open spec fn all_prov(ms: Seq<WordMatch>) -> bool { forall|k: int| 0 <= k < ms.len() ==> prov(#[trigger] ms[k]) }
@@ -71,12 +66,11 @@ proof fn lemma_char_len_bounds(ws: Seq<WordShape>, n: int)
     ensures 0 <= ref_char_len(ws, n) <= n * 0x4000_0000
     decreases n
 { if n > 0 { lemma_char_len_bounds(ws, n - 1); } }
-//@include ../common/tm_contract.rs
 // assumed here, proved in unit `text`: what text_match returns
 #[verifier::external_body]
 fn text_match(rtext: &TextRef, qtext: &TextRef) -> (ret: (Vec<WordMatch>, Vec<WordMatch>))
     requires text_wf(rtext), text_wf(qtext),
-    ensures matches_for_text(ret.0@, rtext), matches_for_text(ret.1@, qtext), matches_ok(ret.0@), matches_ok(ret.1@),
+    ensures tm_post(rtext, qtext, ret),
 { unimplemented!() }
 // @item rust/core/src/search/score.rs :: fn score_chars_up
 pub fn score_chars_up(hit: &Hit) -> (ret: isize)
